@@ -307,6 +307,74 @@ impl Store {
 }
 
 
+/// Verification hook: read-only view of the dependency store. Only compiled with feature `gohla_pie_verif`.
+#[cfg(feature = "gohla_pie_verif")]
+pub mod verif {
+  use pie_graph::Node;
+
+  use crate::dependency::Dependency;
+  use crate::trait_object::{KeyObj, ValueObj};
+
+  use super::{NodeData, Store};
+
+  /// View of the data of a node.
+  pub enum VerifNode<'a> {
+    Task { task: &'a dyn KeyObj, output: Option<&'a dyn ValueObj> },
+    Resource(&'a dyn KeyObj),
+  }
+
+  /// View of the data of an edge.
+  pub enum VerifEdge<'a> {
+    ReservedRequire,
+    Require { task: &'a dyn KeyObj, checker: &'a dyn ValueObj, stamp: &'a dyn ValueObj },
+    Read { resource: &'a dyn KeyObj, checker: &'a dyn ValueObj, stamp: &'a dyn ValueObj },
+    Write { resource: &'a dyn KeyObj, checker: &'a dyn ValueObj, stamp: &'a dyn ValueObj },
+  }
+
+  /// Visitor over the store: every node (in slot order) with its topological rank, followed by its outgoing and then
+  /// its incoming edges, both in adjacency iteration order.
+  pub trait VerifStoreVisitor {
+    fn node(&mut self, node: Node, rank: u32, data: VerifNode<'_>);
+    fn outgoing_edge(&mut self, src: Node, dst: Node, edge: VerifEdge<'_>);
+    fn incoming_edge(&mut self, dst: Node, src: Node, edge: VerifEdge<'_>);
+    /// Called once at the end with the sizes of the task and resource lookup maps.
+    fn maps(&mut self, _task_to_node_len: usize, _resource_to_node_len: usize) {}
+  }
+
+  fn edge_view(dependency: &Dependency) -> VerifEdge<'_> {
+    match dependency {
+      Dependency::ReservedRequire => VerifEdge::ReservedRequire,
+      Dependency::Require(d) => VerifEdge::Require { task: d.task(), checker: d.checker(), stamp: d.stamp() },
+      Dependency::Read(d) => VerifEdge::Read { resource: d.resource(), checker: d.checker(), stamp: d.stamp() },
+      Dependency::Write(d) => VerifEdge::Write { resource: d.resource(), checker: d.checker(), stamp: d.stamp() },
+    }
+  }
+
+  impl Store {
+    /// Read-only walk over all nodes and edges of the dependency graph.
+    pub fn verif_visit(&self, visitor: &mut dyn VerifStoreVisitor) {
+      for (rank, node) in self.graph.iter_unsorted() {
+        match self.graph.get_node_data(&node) {
+          Some(NodeData::Task { task, output }) => visitor.node(node, rank, VerifNode::Task {
+            task: task.as_key_obj(),
+            output: output.as_ref().map(|o| o.as_ref()),
+          }),
+          Some(NodeData::Resource(resource)) => visitor.node(node, rank, VerifNode::Resource(resource.as_ref())),
+          None => continue,
+        }
+        for (dst, dependency) in self.graph.get_outgoing_edges(&node) {
+          visitor.outgoing_edge(node, *dst, edge_view(dependency));
+        }
+        for (src, dependency) in self.graph.get_incoming_edges(&node) {
+          visitor.incoming_edge(node, *src, edge_view(dependency));
+        }
+      }
+      visitor.maps(self.task_to_node.len(), self.resource_to_node.len());
+    }
+  }
+}
+
+
 #[cfg(test)]
 mod test {
   use std::path::PathBuf;
